@@ -286,9 +286,11 @@ func (i GlobalIdent) Name() string {
 	if i.IsUnnamed() {
 		return strconv.FormatInt(i.GlobalID, 10)
 	}
-	if x, err := strconv.ParseInt(i.GlobalName, 10, 64); err == nil {
-		// Print GlobalName with quotes if it is a number; e.g. "42".
-		return fmt.Sprintf(`"%d"`, x)
+	if isDecimal(i.GlobalName) {
+		// Print GlobalName with quotes if it is a number; e.g. "42". The digits are
+		// kept verbatim (e.g. "007"); a name with a sign (e.g. -5) is not a
+		// number.
+		return `"` + i.GlobalName + `"`
 	}
 	return i.GlobalName
 }
@@ -323,10 +325,17 @@ type LocalIdent struct {
 // NewLocalIdent returns a new local identifier based on the given string. An
 // unnamed local ID is used if ident is an integer, and a local name otherwise.
 func NewLocalIdent(ident string) LocalIdent {
-	if id, err := strconv.ParseInt(ident, 10, 64); err == nil {
+	// An integer is written in digits only; everything else (including a
+	// number with a sign, e.g. -5) is a name.
+	if id, err := strconv.ParseInt(ident, 10, 64); err == nil && isDecimal(ident) {
 		return LocalIdent{LocalID: id}
 	}
 	return LocalIdent{LocalName: ident}
+}
+
+// isDecimal reports whether s consists of one or more decimal digits.
+func isDecimal(s string) bool {
+	return len(s) > 0 && strings.Trim(s, "0123456789") == ""
 }
 
 // Ident returns the identifier associated with the local identifier.
@@ -345,9 +354,11 @@ func (i LocalIdent) Name() string {
 	if i.IsUnnamed() {
 		return strconv.FormatInt(i.LocalID, 10)
 	}
-	if x, err := strconv.ParseInt(i.LocalName, 10, 64); err == nil {
-		// Print LocalName with quotes if it is a number; e.g. "42".
-		return fmt.Sprintf(`"%d"`, x)
+	if isDecimal(i.LocalName) {
+		// Print LocalName with quotes if it is a number; e.g. "42". The digits are
+		// kept verbatim (e.g. "007"); a name with a sign (e.g. -5) is not a
+		// number.
+		return `"` + i.LocalName + `"`
 	}
 	return i.LocalName
 }
